@@ -198,6 +198,9 @@ def _trigger(case):
         if not t['rows'] and any(Y.is_array(k) for n, k in t['cols']):
             trig.append('zero-row-array-column')
             break
+    if any('{{}}' in c for t in case['tables'] for row in t['rows'] for cell in row
+           for c in (cell if isinstance(cell, list) else [cell]) if isinstance(c, str)):
+        trig.append('string-contains-{{}}')
     names = [t['name'].upper() for t in case['tables']]
     cols = [n.upper() for t in case['tables'] for n, k in t['cols']]
     if any(a != b and a in b for a in names for b in names):
